@@ -62,6 +62,9 @@ pub fn quiet_panics() {
             .location()
             .map(|l| format!("{}:{}", l.file(), l.line()))
             .unwrap_or_default();
+        if std::env::var_os("VH_DEBUG").is_some() {
+            eprintln!("panic: {info}");
+        }
         LAST_PANIC_LOC.with(|c| *c.borrow_mut() = loc);
     }));
 }
